@@ -18,7 +18,7 @@ def _cond(rng, syms):
     if r < 0.4:
         return [rng.choice(['ifdef', 'ifndef']), rng.choice(syms)]
     if r < 0.55:
-        return ['bare', rng.choice(syms + ['0', '1'])]
+        return ['bare', rng.choice(syms + ['0', '1', '1-2'])]
     return ['cmp', rng.choice(syms), rng.choice(['==', '!=', '>', '>=', '<', '<=']), rng.choice(['0', '1', '2', '5'])]
 
 
@@ -324,3 +324,68 @@ def gen_small_space_scenario(rng, tier='quick'):
         st += [['org', num(top - 1), None], data(2)]            # the last two addresses of the space
     return {'cfg': cfg, 'files': [{'name': 'main.asm', 'dir': 'src', 'stmts': st}], 'include_dirs': ['lib'], 'extra_files': [],
             'fault': f'small-space-{bits}', 'opts': {'start': 0, 'end': None, 'fill': 0}}
+
+
+# ------------------------------------------------------------------------------------------------ layout directives over labels
+def gen_layout_expr_scenario(rng, tier='quick'):
+    """layout directives whose operands are expressions over address labels: .fill/.zero counts, .zerountil targets, .org
+    addresses (without a zone, with a zone, with "GLOBAL" written out) and .align pages computed from labels defined
+    earlier (they have their value while addresses are assigned) or later (rejected), in configurations where GLOBAL is
+    redefined with a non-zero start so that a zone-relative origin in GLOBAL differs from an absolute one"""
+    cfg = base_cfg(rng, {'p_zones': 0.0, 'p_data': 0.0})
+    cfg['embedded'] = False
+    cfg['page'] = rng.choice([1, 4, 16])
+    gs = rng.choice([0, 0x10, 0x40, 0x100])
+    if rng.random() < 0.75:
+        cfg['zones'] = [['GLOBAL', gs, 0x7fff]]
+        if rng.random() < 0.5:
+            cfg['zones'].append(['ram', 0x2000, 0x20ff])
+    else:
+        gs = 0
+    cfg['origin'] = max(cfg['origin'], gs)
+    st = []
+    byte = [0x50]
+
+    def data(n=None):
+        out = []
+        for _ in range(n or rng.randint(1, 4)):
+            byte[0] = (byte[0] + 1) & 0xFF
+            out.append(num(byte[0]))
+        return ['data', 1, out]
+
+    def lab(n):
+        return ('lab', n)
+    fault = 'layout-exprs'
+    hi = [0x80]
+    for i in range(rng.randint(1, 4)):
+        a, b, c = f'rec{i}', f'rec{i}_end', f'after{i}'
+        st += [['label', a], data(), ['label', b]]
+        size = ('bin', '-', lab(b), lab(a))
+        r = rng.random()
+        if r < 0.15:
+            st.append(['fill', ('bin', '-', num(8), size), num(0xF0 + i)])
+        elif r < 0.25:
+            st.append(['zero', size])
+        elif r < 0.40:
+            st.append(['zerountil', ('bin', '+', lab(a), num(rng.choice([0, 2, 4, 7])))])
+        elif r < 0.52:
+            hi[0] += 0x40
+            st.append(['org', ('bin', '+', lab(b), num(hi[0])), None])
+        elif r < 0.70:
+            hi[0] += 0x200
+            st.append(['org', num(hi[0]), 'GLOBAL'])
+        elif r < 0.80:
+            hi[0] += 0x200
+            st.append(['org', ('bin', '+', size, num(hi[0])), 'GLOBAL'])
+        elif r < 0.88 and any(z[0] == 'ram' for z in cfg['zones']):
+            st.append(['org', ('bin', '+', size, num(0x10 * i)), 'ram'])
+        elif r < 0.95:
+            st.append(['align', size])
+        else:
+            # a label that is only defined further down has no value yet when addresses are assigned
+            st.append(rng.choice([['fill', ('bin', '-', lab(c), lab(a)), num(1)], ['zerountil', lab(c)], ['org', ('bin', '+', lab(c), num(0x800)), None],
+                                  ['zero', lab(c)]]))
+            fault = 'layout-exprs-forward'
+        st += [['label', c], data(), rng.choice([['instr', 'jmp', [lab(c)]], ['data', 2, [lab(b), lab(c)]], ['data', 2, [lab(a)]]])]
+    return {'cfg': cfg, 'files': [{'name': 'main.asm', 'dir': 'src', 'stmts': st}], 'include_dirs': ['lib'], 'extra_files': [],
+            'fault': fault, 'opts': _opts(rng, cfg)}
